@@ -943,7 +943,9 @@ def c8_no_blocking_during_search(fb, rep, cg):
         after_stop = f.path_avoiding((f.entry, -1), lambda x, _e=e: x is _e, R.is_named_call('EngineMainThread::waitStop')) is None
         from .. import regions as G
         g = G.guards_of(f, set(f.blocks), b)
-        only_nosearch = g == ['!bool(sc)'] or g == ['!sc']
+        # evaluated, not matched: unreachable while a search object exists, reachable when there is none
+        scv = lambda v: (lambda t: ('v', v) if (t.get('k') == 'mem' and ap(t) == 'this.sc') else (('v', 0) if t.get('k') in ('nullptr', 'null') else None))
+        only_nosearch = G.excluded_under(f, b, scv(1)) and not G.excluded_under(f, b, scv(0))
         rep.ob(clause, 'K4 guard', '%s: waits for pending options only after the search was stopped, or when no search object exists' % f.sname,
                after_stop or only_nosearch, R.site(f, e), 'preceded by waitStop on every path: %s; guards: %s' % (after_stop, g), f.sname)
     # the same for waitStop: only stopThread (which first installs the zero time limit, C06.2) may block on it
